@@ -39,14 +39,20 @@ def records(v):
     return v
 
 
-def to_scenario(beh, sid):
-    run = beh["obs"][0]["run"]
+def harness_apps(model_apps):
+    """The embedder's app list in the harness's input format (the model writes options as sequences)."""
     apps = []
-    for a in run["apps"]:
+    for a in model_apps:
         x = {"id": a["id"], "ver": a["ver"], "cohort": a["cohort"] if isinstance(a["cohort"], dict) else {}}
         if a["uc"]:
             x["uc"] = a["uc"][0]
         apps.append(x)
+    return apps
+
+
+def to_scenario(beh, sid):
+    run = beh["obs"][0]["run"]
+    apps = harness_apps(run["apps"])
     cfg = {"mode": run["mode"], "apps": apps, "sys": run["sys"], "os_version": run["os"]}
     if run["cup"]:
         cfg["cup"] = {"latest": run["kid"], "hist": []}
@@ -56,7 +62,10 @@ def to_scenario(beh, sid):
         if "key" in it:
             ans["%s#%d" % (it["key"], it["n"])] = records(it["ans"])
         else:
-            stim.append({"at": {"p": it["p"], "n": it["n"]}, "do": [it["do"]]})
+            do = dict(it["do"])
+            if "run" in do and "apps" in do["run"]:
+                do["run"] = dict(do["run"], apps=harness_apps(do["run"]["apps"]))
+            stim.append({"at": {"p": it["p"], "n": it["n"]}, "do": [do]})
     return {"id": sid, "cfg": cfg, "ans": ans, "stim": stim}
 
 
